@@ -68,14 +68,35 @@ Corollary C10_late_model_names : forall k ev mc ini hs m,
 Proof. exact late_model_names. Qed.
 
 (* ADD TWICE: add_model of a registered model changes nothing — models, every object, lock map, graph
-   table, queues, machine, even the callback counter.  Non-graph classes return None; the graph classes
-   raise AttributeError ("Model already has a get_graph attribute") — still without any effect. *)
+   table, queues, machine, even the callback counter — and returns None, in EVERY class (the graph classes
+   skip models that were registered before the call; /repo fix D34). *)
 Theorem C10_add_twice : forall k ev mc ini hs m init bs r w',
   let w := run k ev (init_world mc ini) hs in
   In m (w_models w) ->
   step k ev w (OAddModel m init) = (bs, r, w') ->
-  bs = [] /\ r = (if k_graph k then inl AttributeError else inr None) /\ world_eq w w'.
+  bs = [] /\ r = inr None /\ world_eq w w'.
 Proof. exact add_twice_reachable. Qed.
+
+(* What still raises in the graph classes: an object that is NOT registered but already owns get_graph (a model
+   removed earlier keeps the attribute, or it is shared with another graph machine).  The base add_model
+   registers it and sets its state, then GraphMachine.add_model raises AttributeError; no graph is built. *)
+Theorem C10_graph_readd_raises : forall k ev w m init bs r w',
+  k_graph k = true -> ~ In m (w_models w) ->
+  has_helper HGraph (o_helpers (w_obj w m)) = true ->
+  get_state (w_mc w) (match init with Some s => s | None => w_initial w end) <> None ->
+  step k ev w (OAddModel m init) = (bs, r, w') ->
+  r = inl AttributeError /\ w_models w' = w_models w ++ [m] /\ w_graphs w' = w_graphs w /\
+  o_state (w_obj w' m) = Some (match init with Some s => s | None => w_initial w end).
+Proof. exact graph_readd_thm. Qed.
+
+(* ... and this situation is reachable: add, remove, add again on a graph class *)
+Example C10_graph_readd_example :
+  match step gk (fun _ _ => mkReply true None [])
+             (run gk (fun _ _ => mkReply true None []) (init_world mc1 0) [OAddModel 0 None; ORemoveModel 0])
+             (OAddModel 0 None) with
+  | (_, r, w') => r = inl AttributeError /\ w_models w' = [0]
+  end.
+Proof. exact graph_readd_witness. Qed.
 
 (* REMOVED (1): remove_model m takes m out of the registered models, the lock map and the per-model
    queues of the classes that keep them, and changes no object. *)
@@ -156,6 +177,8 @@ Print Assumptions C10_dispatch.
 Print Assumptions C10_late_model.
 Print Assumptions C10_late_model_names.
 Print Assumptions C10_add_twice.
+Print Assumptions C10_graph_readd_raises.
+Print Assumptions C10_graph_readd_example.
 Print Assumptions C10_removed_tables.
 Print Assumptions C10_removed.
 Print Assumptions C10_removed_graph_key_refuted.
